@@ -11,6 +11,7 @@ import (
 	"os"
 	"strconv"
 	"strings"
+	"time"
 )
 
 // decDigits is a decimal digit string with a radix point position:
@@ -36,9 +37,12 @@ func roundDigits(d decDigits, neg bool, nd int64, mode uint8) decDigits {
 		return d
 	}
 	if nd >= 1 {
+		// printing is not subject to the exponent range: round the mantissa 0.D and re-attach the exponent
 		c := mustInt(d.D)
-		r := RoundVal(Val{Form: fFinite, Neg: neg, Coef: c, E10: d.dp - int64(len(d.D))}, uint32(nd), mode)
-		return digitsOf(r.Val())
+		r := RoundVal(Val{Form: fFinite, Neg: neg, Coef: c, E10: -int64(len(d.D))}, uint32(nd), mode)
+		rd := digitsOf(r.Val())
+		rd.dp += d.dp
+		return rd
 	}
 	// nd <= 0: candidates 0 and one unit u = 10^(dp-nd) ... the unit at the rounding position
 	// value v = 0.D × 10^dp; unit u = 10^(dp - nd); v < u always; v >= u/2 only if nd == 0 and D >= "5"
@@ -509,6 +513,103 @@ func formatLayers(tier string) []Layer {
 					for _, f := range []byte{'e', 'E', 'f', 'g', 'G', 'p', 'b', 'x', 'd', 0} {
 						for _, p := range precs {
 							textCase(c, sp, x, f, p)
+						}
+					}
+				}
+			},
+		})
+	}
+	// V3: zeros that previously held a finite value, and all-nines values at the ends of the exponent range
+	{
+		type stale struct {
+			lit string
+			how int
+		}
+		var zs []stale
+		for _, lit := range []string{"1e-10", "1234567", "0.0075", "-2.5e-7", "9.99e300", "1e-2147483648", "5e2147483646"} {
+			for how := 0; how < 4; how++ {
+				zs = append(zs, stale{lit, how})
+			}
+		}
+		layers = append(layers, Layer{
+			Name:   "V3-stale-zero-and-range-ends",
+			Units:  len(zs) + 6,
+			Bounds: "±0 obtained in a variable that previously held a finite value (SetInt64(0), Mul(x,0), SetPrec(0)+SetPrec(p), Set(zero)) for 7 previous values incl. exponents at the range ends: formats e,E,f,g,G,p,b × 12 precisions must print exactly what a fresh zero prints; all-nines coefficients at exponents MaxExp, MaxExp−1, MinExp in formats e,E,g,G,p,b (rounding carries out of the representable range)",
+			Run: func(c *Ctx, u int) {
+				precs := []int{-1, 0, 1, 2, 3, 6, 10, 40}
+				if u < len(zs) {
+					s := zs[u]
+					x := fresh(20, uint8(u%6))
+					if _, ok := x.SetString(s.lit); !ok {
+						c.Fail("V3 setup "+s.lit, "SetString failed")
+						return
+					}
+					neg := x.Signbit()
+					switch s.how {
+					case 0:
+						x.SetInt64(0)
+						neg = false
+					case 1:
+						x.Mul(x, new(Dec))
+					case 2:
+						x.SetPrec(0)
+						x.SetPrec(20)
+					case 3:
+						x.Set(new(Dec).Neg(new(Dec)))
+						neg = true
+					}
+					if !x.IsZero() {
+						c.Fail("V3 setup "+s.lit, "not zero")
+						return
+					}
+					zo := mkSpecial(fZero, neg, uint32(x.Prec()), uint8(x.Mode()))
+					for _, f := range []byte{'e', 'E', 'f', 'g', 'G', 'p', 'b'} {
+						for _, p := range precs {
+							if c.Skip() {
+								continue
+							}
+							want := refText(zo.V, zo.Prec, zo.Mode, f, p)
+							var got string
+							done := make(chan struct{})
+							var pv interface{}
+							go func() {
+								defer close(done)
+								pv, _ = protect(func() { got = x.Text(f, p) })
+							}()
+							key := fmt.Sprintf("Text(%c,%d) of a zero that previously held %s (zeroed by method %d)", f, p, s.lit, s.how)
+							select {
+							case <-done:
+							case <-time.After(20 * time.Second):
+								c.Fail(key, "did not terminate within 20 s (output proportional to a stale exponent?)")
+								return
+							}
+							c.NonTrivial()
+							if pv != nil {
+								c.Fail(key, fmt.Sprintf("panic: %v", pv))
+							} else if got != want {
+								c.Fail(key, fmt.Sprintf("got %q, a fresh zero prints %q", got, want))
+							}
+						}
+					}
+					return
+				}
+				// range ends
+				k := u - len(zs)
+				e := []int64{MaxExp, MaxExp - 1, MinExp, MaxExp, MaxExp - 1, MinExp}[k]
+				coef := []string{"99999", "9995", "99999", "12345", "5", "995"}[k]
+				for _, neg := range []bool{false, true} {
+					for _, m := range M6 {
+						xo := mkCoef(neg, mustInt(coef), 0, 20, m)
+						xo.Exp = e
+						xo.V.E10 = e - int64(len(xo.Words))*DW
+						x := xo.Build()
+						for _, f := range []byte{'e', 'E', 'g', 'G', 'p', 'b'} {
+							for _, p := range []int{-1, 0, 1, 2, 3, 4, 5, 8} {
+								if (f == 'p' || f == 'b') && p != 0 {
+									continue
+								}
+								textCase(c, xo, x, f, p)
+							}
 						}
 					}
 				}
